@@ -384,6 +384,11 @@ def _inj_cond(test, fns):
     return None
 
 
+def _is_annotation_listing(e):
+    t = norm(e)
+    return isinstance(e, (ast.ListComp, ast.GeneratorExp, ast.SetComp, ast.Call)) and ".annotation" in t and "parameters" in t
+
+
 def _wrapper_fold(g, h):
     """evaluate the registry wrapper's argument shuffling for the four (datastore annotated?, namespace annotated?) cases"""
     a = g.node.args
@@ -391,9 +396,15 @@ def _wrapper_fold(g, h):
         return f"wrapper signature is {norm(a)}"
     out = {}
 
+    lists = {}  # other local lists / tuples built from the injected values (per case)
+
     def ev_tuple(e, cur):
         if isinstance(e, ast.Name) and e.id == "args":
             return list(cur)
+        if isinstance(e, ast.Name) and e.id in lists:
+            return list(lists[e.id])
+        if isinstance(e, (ast.List,)):
+            e = ast.Tuple(elts=e.elts, ctx=ast.Load())
         if isinstance(e, ast.Name) and e.id in ("datastore", "namespace"):
             return None
         if isinstance(e, ast.Subscript) and isinstance(e.value, ast.Name) and e.value.id == "args" and isinstance(e.slice, ast.Slice):
@@ -422,6 +433,7 @@ def _wrapper_fold(g, h):
         for ns in (True, False):
             cur = ["*args"]
             result = None
+            lists.clear()
 
             def run(stmts):
                 nonlocal cur, result
@@ -433,6 +445,15 @@ def _wrapper_fold(g, h):
                         if v is None or v.count("*args") != 1 or v[-1] != "*args":
                             return f"unrecognised argument shuffling `{norm(st)}`"
                         cur = v
+                    elif isinstance(st, ast.Assign) and len(st.targets) == 1 and isinstance(st.targets[0], ast.Name) and _is_annotation_listing(st.value):
+                        continue  # a local holding the wrapped function's annotations: read by _inj_cond through its definition
+                    elif isinstance(st, (ast.Assign, ast.AnnAssign)) and isinstance(st.targets[0] if isinstance(st, ast.Assign) else st.target, ast.Name) and isinstance(st.value, (ast.List, ast.Tuple)) and (st.targets[0] if isinstance(st, ast.Assign) else st.target).id != "args":
+                        v = ev_tuple(st.value, cur)
+                        if v is None:
+                            return f"unrecognised list `{norm(st)}`"
+                        lists[(st.targets[0] if isinstance(st, ast.Assign) else st.target).id] = v
+                    elif isinstance(st, ast.Expr) and isinstance(st.value, ast.Call) and isinstance(st.value.func, ast.Attribute) and st.value.func.attr == "append" and isinstance(st.value.func.value, ast.Name) and st.value.func.value.id in lists and len(st.value.args) == 1 and isinstance(st.value.args[0], ast.Name) and st.value.args[0].id in ("datastore", "namespace"):
+                        lists[st.value.func.value.id] = lists[st.value.func.value.id] + [st.value.args[0].id]
                     elif isinstance(st, ast.If):
                         c = _inj_cond(st.test, [g, h])
                         if c is None:
